@@ -1,99 +1,153 @@
 ------------------------------- MODULE Session -------------------------------
 (* Per-client keyspace / protocol version / compression and the session table       *)
 (* (proxy/proxy.go: client.{keyspace, compression}, Proxy.sessions, findSession,     *)
-(*  maybeCreateSession(Unlocked), interceptSystemQuery for USE; proxycore/session.go *)
-(*  ConnectSession; proxycore/connpool.go connect: STARTUP options + USE).           *)
+(*  maybeCreateSessionUnlocked, interceptSystemQuery for USE; proxycore/session.go   *)
+(*  ConnectSession + the bootstrap goroutine of Session.OnEvent; connpool.go connect: *)
+(*  STARTUP options + USE).                                                           *)
 (*                                                                                   *)
-(* A USE is three steps in the code and three actions here: UseConnect (a new         *)
-(* session connects its pools with `USE ks`; any failure fails the session),          *)
-(* UseStore (the session is put into the table) and UseReply (client.keyspace is      *)
-(* updated and RESULT SET_KEYSPACE is sent).  Several clients run these steps         *)
-(* concurrently, including for the same key.  The session table lock is explicit.     *)
+(* A USE is a sequence of critical sections in the code and one action each here:     *)
+(*   UseStart      findSession: look the key up under the read lock                    *)
+(*   TakeWrite     not found: take the write lock, look again                          *)
+(*   Listen        ConnectSession registers the new session with the cluster           *)
+(*   BootPool      the bootstrap goroutine connects one host's pool (STARTUP + USE);   *)
+(*                 a failure is put on the session's `failed` channel                   *)
+(*   BootDone      ... and closes `connected` after the last pool                       *)
+(*   Select        ConnectSession's select over `connected` and `failed`                *)
+(*   UseStore      the session is put into the table, the write lock released            *)
+(*   UseReply      client.keyspace is updated and RESULT SET_KEYSPACE is sent            *)
+(*   UseFail       the error goes to the client                                          *)
+(* Several clients run these steps concurrently, including for the same key.  The      *)
+(* table's read/write lock is explicit.                                               *)
 EXTENDS Naturals, Sequences, FiniteSets, TLC
 
 CONSTANTS Clients, Keyspaces, Valid,   \* Valid \subseteq Keyspaces exist in the backend
           Attr,                        \* Attr[c] = <<version, compression>> of client c
+          NHosts,                      \* pools per session
           MaxOps,
-          StoreUnderReadLock           \* legacy switch: the table is written while holding only the read lock (pinned tree)
+          StoreUnderReadLock,          \* legacy switch (pinned tree): the creator keeps the read lock and writes the table under it
+          SelectIgnoresFailure         \* legacy switch (pinned tree): when `connected` and `failed` are both ready the select may
+                                       \* take `connected` and return the session
 
 VARIABLES ks,        \* c -> current keyspace ("" = none)
-          pc,        \* c -> idle | connect | store | reply | fail | fwd
+          pc,        \* c -> idle | wlock | listen | select | store | reply | fail
           tgt,       \* c -> keyspace of the USE in progress
           news,      \* c -> session created by the USE in progress (or 0)
-          sess,      \* session id -> [ks, attr]
+          boot,      \* c -> the session under construction: [pools (connected so far), failedq, connected] or NoBoot
+          sess,      \* session id -> [ks, attr, ok]   ok: every pool connected
           table,     \* key <<attr, ks>> -> session id
           lock,      \* [r |-> set of clients holding the read lock, w |-> writer or "none"]
           ops,       \* operations started
-          log,       \* the last forwarded request: <<c, ks[c] at forward time, session ks, session attr>>
+          log,       \* the last forwarded request: <<c, ks[c] at forward time, session ks, session attr, session ok>>
           replies    \* the last reply: <<c, kind, ks>>
 
-vars == <<ks, pc, tgt, news, sess, table, lock, ops, log, replies>>
+vars == <<ks, pc, tgt, news, boot, sess, table, lock, ops, log, replies>>
 
 Key(c, k) == <<Attr[c], k>>
+NoBoot == [pools |-> 0, failedq |-> FALSE, connected |-> FALSE, on |-> FALSE]
 
 Init == /\ ks = [c \in Clients |-> ""] /\ pc = [c \in Clients |-> "idle"]
         /\ tgt = [c \in Clients |-> ""] /\ news = [c \in Clients |-> 0]
+        /\ boot = [c \in Clients |-> NoBoot]
         /\ sess = <<>> /\ table = [x \in {} |-> 0]
         /\ lock = [r |-> {}, w |-> "none"] /\ ops = 0 /\ log = <<>> /\ replies = <<>>
 
-NewSession(k, a) == Append(sess, [ks |-> k, attr |-> a])
+NewSession(k, a, ok) == Append(sess, [ks |-> k, attr |-> a, ok |-> ok])
 
-(* client sends USE k: maybeCreateSession takes the read lock *)
+(* client sends USE k: findSession looks the key up under the read lock *)
 UseStart(c, k) ==
     /\ pc[c] = "idle" /\ ops < MaxOps /\ lock.w = "none"
-    /\ lock' = [lock EXCEPT !.r = @ \cup {c}]
-    /\ pc' = [pc EXCEPT ![c] = IF Key(c, k) \in DOMAIN table THEN "reply" ELSE "connect"]
     /\ tgt' = [tgt EXCEPT ![c] = k] /\ ops' = ops + 1
-    /\ UNCHANGED <<ks, news, sess, table, log, replies>>
+    /\ IF Key(c, k) \in DOMAIN table
+       THEN pc' = [pc EXCEPT ![c] = "reply"] /\ UNCHANGED lock                       \* RLock ... RUnlock within the step
+       ELSE IF StoreUnderReadLock
+            THEN pc' = [pc EXCEPT ![c] = "listen"] /\ lock' = [lock EXCEPT !.r = @ \cup {c}]
+            ELSE pc' = [pc EXCEPT ![c] = "wlock"] /\ UNCHANGED lock
+    /\ UNCHANGED <<ks, news, boot, sess, table, log, replies>>
 
-(* ConnectSession: every pooled connection issues STARTUP(attr) and USE k *)
-UseConnect(c) ==
-    /\ pc[c] = "connect"
-    /\ IF tgt[c] \in Valid
-       THEN /\ sess' = NewSession(tgt[c], Attr[c])
+(* sessionsMu.Lock(); maybeCreateSessionUnlocked looks again *)
+TakeWrite(c) ==
+    /\ pc[c] = "wlock" /\ lock.w = "none" /\ lock.r = {}
+    /\ IF Key(c, tgt[c]) \in DOMAIN table
+       THEN pc' = [pc EXCEPT ![c] = "reply"] /\ UNCHANGED lock                       \* found: Lock ... Unlock within the step
+       ELSE pc' = [pc EXCEPT ![c] = "listen"] /\ lock' = [lock EXCEPT !.w = c]
+    /\ UNCHANGED <<ks, tgt, news, boot, sess, table, ops, log, replies>>
+
+(* ConnectSession: cluster.Listen(session); the cluster answers with the bootstrap event *)
+Listen(c) ==
+    /\ pc[c] = "listen"
+    /\ boot' = [boot EXCEPT ![c] = [NoBoot EXCEPT !.on = TRUE]]
+    /\ pc' = [pc EXCEPT ![c] = "select"]
+    /\ UNCHANGED <<ks, tgt, news, sess, table, lock, ops, log, replies>>
+
+(* bootstrap goroutine: one host's pool connects (every connection issues STARTUP(attr) and USE k) or fails *)
+BootPool(c) ==
+    /\ boot[c].on /\ boot[c].pools < NHosts /\ ~boot[c].connected
+    /\ boot' = [boot EXCEPT ![c].pools = @ + 1,
+                            ![c].failedq = @ \/ tgt[c] \notin Valid]     \* select { case s.failed <- err: default: }
+    /\ UNCHANGED <<ks, pc, tgt, news, sess, table, lock, ops, log, replies>>
+
+(* ... wg.Wait(); close(s.connected) *)
+BootDone(c) ==
+    /\ boot[c].on /\ boot[c].pools = NHosts /\ ~boot[c].connected
+    /\ boot' = [boot EXCEPT ![c].connected = TRUE]
+    /\ UNCHANGED <<ks, pc, tgt, news, sess, table, lock, ops, log, replies>>
+
+(* ConnectSession's select; the two ready cases are taken nondeterministically *)
+SelectFailed(c) ==
+    /\ pc[c] = "select" /\ boot[c].failedq
+    /\ pc' = [pc EXCEPT ![c] = "fail"]
+    /\ UNCHANGED <<ks, tgt, news, boot, sess, table, lock, ops, log, replies>>
+SelectConnected(c) ==
+    /\ pc[c] = "select" /\ boot[c].connected
+    /\ IF boot[c].failedq /\ ~SelectIgnoresFailure
+       THEN pc' = [pc EXCEPT ![c] = "fail"] /\ UNCHANGED <<sess, news>>            \* the failure is looked for again
+       ELSE /\ sess' = NewSession(tgt[c], Attr[c], ~boot[c].failedq)
             /\ news' = [news EXCEPT ![c] = Len(sess) + 1]
             /\ pc' = [pc EXCEPT ![c] = "store"]
-       ELSE /\ pc' = [pc EXCEPT ![c] = "fail"] /\ UNCHANGED <<sess, news>>
-    /\ UNCHANGED <<ks, tgt, table, lock, ops, log, replies>>
+    /\ UNCHANGED <<ks, tgt, boot, table, lock, ops, log, replies>>
 
-(* p.sessions[key] = sess *)
+(* p.sessions[key] = sess; Unlock *)
 UseStore(c) ==
     /\ pc[c] = "store"
-    /\ StoreUnderReadLock \/ (lock.r \subseteq {c} /\ lock.w \in {"none", c})
     /\ table' = (Key(c, tgt[c]) :> news[c]) @@ table
     /\ pc' = [pc EXCEPT ![c] = "reply"]
-    /\ UNCHANGED <<ks, tgt, news, sess, lock, ops, log, replies>>
+    /\ lock' = [r |-> lock.r \ {c}, w |-> IF lock.w = c THEN "none" ELSE lock.w]
+    /\ boot' = [boot EXCEPT ![c] = NoBoot]
+    /\ UNCHANGED <<ks, tgt, news, sess, ops, log, replies>>
 
 UseReply(c) ==
     /\ pc[c] = "reply"
     /\ ks' = [ks EXCEPT ![c] = tgt[c]]
     /\ replies' = <<c, "setks", tgt[c]>>
-    /\ lock' = [lock EXCEPT !.r = @ \ {c}]
     /\ pc' = [pc EXCEPT ![c] = "idle"]
-    /\ UNCHANGED <<tgt, news, sess, table, ops, log>>
+    /\ UNCHANGED <<tgt, news, boot, sess, table, lock, ops, log>>
 
 UseFail(c) ==
     /\ pc[c] = "fail"
     /\ replies' = <<c, "error", tgt[c]>>
-    /\ lock' = [lock EXCEPT !.r = @ \ {c}]
+    /\ lock' = [r |-> lock.r \ {c}, w |-> IF lock.w = c THEN "none" ELSE lock.w]
+    /\ boot' = [boot EXCEPT ![c] = NoBoot]
     /\ pc' = [pc EXCEPT ![c] = "idle"]
     /\ UNCHANGED <<ks, tgt, news, sess, table, ops, log>>
 
 (* a data request: findSession(version, client.keyspace, compression) then forward on that session *)
 Forward(c) ==
-    /\ pc[c] = "idle" /\ ops < MaxOps /\ lock.w = "none"
+    /\ pc[c] = "idle" /\ ops < MaxOps /\ lock.w = "none" /\ lock.r = {}
     /\ ops' = ops + 1
     /\ IF Key(c, ks[c]) \in DOMAIN table
-       THEN /\ log' = <<c, ks[c], sess[table[Key(c, ks[c])]].ks, sess[table[Key(c, ks[c])]].attr>>
+       THEN /\ LET s == sess[table[Key(c, ks[c])]] IN log' = <<c, ks[c], s.ks, s.attr, s.ok>>
             /\ UNCHANGED <<sess, table>>
-       ELSE \* created on demand (the default session of a new version/compression); "" is always valid
-            /\ sess' = NewSession(ks[c], Attr[c])
+       ELSE \* created on demand (the default session of a new version/compression; same steps, always succeeding)
+            /\ sess' = NewSession(ks[c], Attr[c], TRUE)
             /\ table' = (Key(c, ks[c]) :> Len(sess) + 1) @@ table
-            /\ log' = <<c, ks[c], ks[c], Attr[c]>>
-    /\ UNCHANGED <<ks, pc, tgt, news, lock, replies>>
+            /\ log' = <<c, ks[c], ks[c], Attr[c], TRUE>>
+    /\ UNCHANGED <<ks, pc, tgt, news, boot, lock, replies>>
 
-Next == \E c \in Clients : (\E k \in Keyspaces : UseStart(c, k)) \/ UseConnect(c) \/ UseStore(c) \/ UseReply(c) \/ UseFail(c) \/ Forward(c)
+Next == \E c \in Clients : \/ \E k \in Keyspaces : UseStart(c, k)
+                           \/ TakeWrite(c) \/ Listen(c) \/ BootPool(c) \/ BootDone(c) \/ SelectFailed(c) \/ SelectConnected(c)
+                           \/ UseStore(c) \/ UseReply(c) \/ UseFail(c) \/ Forward(c)
 Spec == Init /\ [][Next]_vars
+Fair == Spec /\ WF_vars(Next)
 
 -----------------------------------------------------------------------------
 \* C07: a forwarded request runs on a session whose keyspace/version/compression are the client's
@@ -101,8 +155,12 @@ ForwardInClientKs == log # <<>> => (log[2] = log[3] /\ log[4] = Attr[log[1]])
 \* C07: only valid keyspaces ever become current; a failed USE leaves the previous keyspace in force
 OnlyValidKs == \A c \in Clients : ks[c] = "" \/ ks[c] \in Valid
 FailedUseKeepsKs == [][\A c \in Clients : pc[c] = "fail" => ks'[c] = ks[c]]_vars
+\* C07 / C17: a request is never forwarded on a session one of whose pools failed to connect (a nil pool)
+NoBrokenSession == (\A i \in DOMAIN sess : sess[i].ok) /\ (log # <<>> => log[5])
 \* C07: one client's actions never change another client's keyspace
 Isolation == [][\A c, d \in Clients : (c # d /\ pc'[c] # pc[c]) => ks'[d] = ks[d]]_vars
 \* C18 (design): the session table is written only while no other thread can read it
-TableWriteExclusive == [][table' # table => (\A c \in Clients : pc[c] = "store" /\ pc'[c] = "reply" => lock.r \subseteq {c}) ]_vars
+TableWriteExclusive == [][table' # table => (\A c \in Clients : pc[c] = "store" /\ pc'[c] = "reply" => (lock.r \subseteq {c} /\ lock.w \in {c, "none"})) ]_vars
+\* every USE is answered (the locks are released on every path)
+UseAnswered == \A c \in Clients : pc[c] # "idle" ~> pc[c] = "idle"
 =============================================================================
